@@ -1440,7 +1440,18 @@ class SymCtx:
                 return None
             self.claims.append((name, 'sat', None))
             if self.cex is None:
-                self.cex = (name, self._extract(self.model))
+                m = self.model
+                # prefer pairwise distinct, non-zero real inputs (see claim()): replays more robustly
+                reals = [c for n_, c in self.inputs.items() if self.input_kinds.get(n_) == 'real']
+                if 1 < len(reals) <= 40:
+                    s2 = z3.Solver()
+                    s2.set('timeout', 5000)
+                    s2.add(*self.pc)
+                    s2.add(z3.Distinct(*reals))
+                    s2.add(*[c != 0 for c in reals])
+                    if s2.check() == z3.sat:
+                        m = s2.model()
+                self.cex = (name, self._extract(m))
             return False
         s = z3.Solver()
         s.set('random_seed', self.seed)
